@@ -46,7 +46,7 @@ class AbstractHelp(Component):
     def _render_argument(
         self, layout, argument
     ):  # type: (BlockLayout, Argument) -> None
-        description = argument.description
+        description = argument.description or ""
         name = "<c1><{}></c1>".format(argument.name)
         default = argument.default
 
@@ -78,7 +78,7 @@ class AbstractHelp(Component):
         layout.add(EmptyLine())
 
     def _render_option(self, layout, option):  # type: (BlockLayout, Option) -> None
-        description = option.description
+        description = option.description or ""
         default = option.default
 
         alternative_name = None
